@@ -153,6 +153,10 @@ impl InstructionGenerator {
         // copy step from D to B
         self.push(Instruction::CopyDToB, pos);
         self.push(Instruction::Plus, pos);
+        // the sum takes the type of the counter, like an assignment would
+        if let rusty_parser::ExpressionType::BuiltIn(q) = counter_var_name.expression_type() {
+            self.push(Instruction::Cast(q), pos);
+        }
         self.store_counter(counter_var_name, pos);
 
         // back to loop
